@@ -10,7 +10,7 @@ import copy
 
 import numpy as np
 
-from sim import core
+from sim import core, prng
 from sim.core import Violation, HarnessError
 from sim.world import World, grad_ctx
 
@@ -157,7 +157,8 @@ class C10World(World):
     EXPECTED_PROBES = ["cache_hit_served", "hit_after_refill_following_train", "partial_cache_logabsdet_only",
                        "load_with_filled_cache", "dtype_change_with_filled_cache", "deepcopy_with_filled_cache",
                        "restart_with_filled_cache", "interrupt_on_cached_path", "backward_through_cache_hit",
-                       "parameter_update_in_training", "failed_partial_load_with_filled_cache",
+                       "parameter_update_in_training", "failed_partial_load_with_filled_cache", "partial_load_with_filled_cache",
+                       "submodule_only_load_with_filled_cache",
                        "rejected_call_with_filled_cache", "successful_call_after_fault"]
 
     # ------------------------------------------------------------ config
@@ -356,8 +357,10 @@ class C10World(World):
         elif kind == "load":
             how = "full"
             if faulty:
-                how = fault.weighted(["full", "subset", "bad_key"], [3, 1, 1])
+                how = fault.weighted(["full", "subset", "bad_key", "missing_strict"], [3, 2, 1, 1])
             op.update(seed=data.seed30(), mag=data.pick([0.3, 0.5, 1.0]), how=how)
+            if how != "full":
+                op["pick"] = fault.seed30()
         elif kind == "restart":
             op["seed"] = data.seed30()
         return op
@@ -704,14 +707,32 @@ class C10World(World):
                 self.M.load_state_dict(sd, strict=True)
             except Exception as e:   # noqa: BLE001
                 raise Violation("raises_only_when_cached", "load_state_dict: %s: %s" % (type(e).__name__, str(e)[:300]))
-        elif how == "subset":
-            keys = sorted(k for k in sd if sd[k].is_floating_point())
-            keep = keys[: max(1, len(keys) // 2)]
-            self.M.load_state_dict({k: sd[k] for k in keep}, strict=False)
-            self.faults["partial_load_strict_false"] += 1
+        elif how in ("subset", "missing_strict"):
+            # a seeded, non-empty, proper-or-full subset of the keys: own parameters only, sub-module
+            # parameters only (Householder vectors, permutation) or any mixture
+            keys = sorted(sd)
+            pick = prng.Stream(int(op.get("pick", op["seed"])), "subset")
+            keep = [k for k in keys if pick.chance(0.5)] or [pick.pick(keys)]
+            part = {k: sd[k] for k in keep}
+            own = [k for k in keep if "." not in k.split("leaf.")[-1]]
+            if how == "subset":
+                self.M.load_state_dict(part, strict=False)
+                self.faults["partial_load_strict_false"] += 1
+            else:
+                try:
+                    self.M.load_state_dict(part, strict=True)
+                    log.add("strict_subset_load_did_not_raise")
+                except RuntimeError:
+                    self.faults["failed_partial_load"] += 1
+                    self.after_fault = True
+            if any(flags) and len(keep) < len(keys):
+                self.probes["partial_load_with_filled_cache"] += 1
+            if any(flags) and all("q_vectors" in k or "permutation" in k for k in keep):
+                self.probes["submodule_only_load_with_filled_cache"] += 1
         elif how == "bad_key":
             keys = sorted(k for k in sd if sd[k].is_floating_point())
-            bad = keys[-1]
+            pick = prng.Stream(int(op.get("pick", op["seed"])), "badkey")
+            bad = pick.pick(keys)
             sd[bad] = torch.zeros(tuple(sd[bad].shape) + (2,))
             try:
                 self.M.load_state_dict(sd, strict=True)
